@@ -289,6 +289,86 @@ def run_parked(ctx, case, rng):
 
 
 # ---------------------------------------------------------------------------
+def run_multi_blocked(ctx, case, rng):
+    """Two or more threads blocked at once in sendall()/sendall_stderr() on one channel's exhausted window, then ONE
+    adjust large enough for all of them and none afterwards (what they send stays under the peer's 10 % threshold):
+    every blocked call must return with all its bytes on the wire."""
+    w = SMALL_WINDOW
+    role = case["role"]
+    p = pair.Pair(rng=rng, server_kw=dict(default_window_size=w) if role == "c" else {})
+    cm.watch(p.tc, p.rec, "c")
+    cm.watch(p.ts, p.rec, "s")
+    try:
+        if not p.start() or not p.auth():
+            ctx.inconclusive("handshake failed (multi blocked)")
+            return
+        cm.diverge_ids(p, rng)
+        c, s = p.session(window_size=w if role == "s" else None)
+        x, y = (c, s) if role == "c" else (s, c)
+        x.settimeout(60)
+        cm.send_all(x, bytes(w), random.Random(1))
+        x.settimeout(None)
+        if x.out_window_size != 0 or not pair.wait_for(lambda: len(y.in_buffer) == w, 20, 0.002):
+            ctx.inconclusive("could not exhaust the window (multi blocked)")
+            return
+        n = case["writers"]
+        size = case["size"]
+        res = {}
+        mark = len(p.rec.events)
+
+        def call(i):
+            api = "sendall_stderr" if i % 2 else "sendall"
+            try:
+                getattr(x, api)((b"\xc1" if i % 2 else b"\x41") * size)
+                res[i] = "returned"
+            except BaseException as e:
+                res[i] = "raised:" + type(e).__name__
+
+        ths = [threading.Thread(target=call, args=(i,), daemon=True, name="w%d" % i) for i in range(n)]
+        for t in ths:
+            t.start()
+        if not pair.wait_for(lambda: all("_wait_for_send_window" in " ".join(v) for v in cm.stacks_of(ths).values()), 30, 0.002):
+            ctx.inconclusive("the calls did not all block on the window (multi blocked)")
+            return
+        ctx.count("sendall_calls_blocked_together", n)
+        got = y.recv(w)  # one adjust of w bytes; n * size stays below the threshold, so no further adjust will come
+        if len(got) != w:
+            ctx.inconclusive("peer could not take the whole window in one read")
+            return
+        SIG = "sendall never returned: blocked at quiescence with the window open (several calls woken by one adjust)"
+        end = time.monotonic() + 120
+        while any(t.is_alive() for t in ths) and time.monotonic() < end:
+            time.sleep(0.005)
+            alive = [t for t in ths if t.is_alive()]
+            if alive and p.link.quiescent(0.5):
+                ok, st = cm.blocked_at_quiescence(alive, p.link, 1.0 if SIG in ctx.violations else ctx.pick(10, 20))
+                if ok and x.out_window_size > 0:
+                    ctx.violation(SIG, "%d of %d blocked sendall calls are still parked; channel open, out_window_size=%d, "
+                                  "nothing in flight" % (len(alive), n, x.out_window_size), dict(case=case, results=res, stacks=st))
+                    return
+        if any(t.is_alive() for t in ths):
+            ctx.inconclusive("blocked sendall calls neither returned nor were provably stuck")
+            return
+        on_wire = {}
+        for e in p.rec.snapshot()[mark:]:
+            if e.get("kind") == "msg" and e["side"] == role and e["dir"] == "out" and e["type"] in (cm.DATA, cm.EXT):
+                on_wire[e["thread"]] = on_wire.get(e["thread"], 0) + cm.parse(e["payload"])["len"]
+        ctx.count("multi_blocked_cases")
+        bad = [i for i, t in enumerate(ths) if res.get(i) != "returned" or on_wire.get(t.ident, 0) != size]
+        if bad:
+            ctx.violation("blocked sendall woken by a shared adjust did not deliver (returned/raised with bytes missing)",
+                          "calls %s: results %s, bytes on the wire %s, expected %d each" % (
+                              bad, [res.get(i) for i in bad], [on_wire.get(ths[i].ident, 0) for i in bad], size), dict(case=case))
+        else:
+            ctx.count("blocked_calls_all_delivered", n)
+        adj = p.msgs(role, "in", (cm.ADJUST,))
+        if len(adj) == 1:
+            ctx.count("multi_blocked_cases_with_exactly_one_adjust")
+    finally:
+        p.close()
+
+
+# ---------------------------------------------------------------------------
 PAYLOADS = ("bytes", "bytearray", "memoryview", "ascii-str", "nonascii-str")
 SIZECLASS = ("one-chunk", "many-chunks", "window-limited")
 ALPHABET = "a\u00e9\u4e2d\U0001f600\u07ff\u0800z"  # 1-, 2-, 3- and 4-byte UTF-8 encodings
@@ -696,6 +776,11 @@ def run(ctx):
         if ctx.mine(i):
             ctx.guard(run_parked, ctx, case, rng)
             ctx.case(tuple(sorted(case.items())), sample=case if i < 8 else None)
+    for i in range(ctx.pick(3, 12)):
+        j = i * ctx.nshards + ctx.shard
+        case = dict(kind="calls-blocked-together-one-adjust", role="cs"[j % 2], writers=2 + j // 2 % 3, size=(1, 100, 700)[j % 3])
+        ctx.guard(run_multi_blocked, ctx, case, rng)
+        ctx.case(tuple(sorted(case.items())) + (i,), sample=case if i == 0 else None)
     cells = [dict(kind="payload-type-cell", payload=pl, sizeclass=sc, api=api, role=role, seed="%s/%s/%s" % (pl, sc, api))
              for pl in PAYLOADS for sc in SIZECLASS for api in ("sendall", "send", "sendall_stderr", "send_stderr") for role in "cs"]
     if ctx.quick:
@@ -731,6 +816,10 @@ def run(ctx):
     ctx.require("timed_cases_run", 6)
     ctx.require("parked_writer_cases", 10)
     ctx.require("adjust_processed_before_writer_reacquired_lock", 8)
+    ctx.require("multi_blocked_cases", 18)
+    ctx.require("sendall_calls_blocked_together", 50)
+    ctx.require("multi_blocked_cases_with_exactly_one_adjust", 16)
+    ctx.require("blocked_calls_all_delivered", 50)
     ctx.require("payload_cases", 28)
     ctx.require("payload_cases_nonascii_str", 8)
     ctx.require("payload_cases_spanning_chunks", 16)
